@@ -3,6 +3,7 @@
 #include <sys/resource.h>
 #include <pthread.h>
 #include <unistd.h>
+#include <fcntl.h>
 #include <sched.h>
 #ifdef HAVE_OPENMP
 #include <omp.h>
@@ -314,6 +315,37 @@ static int op_h_write(int argc, char **argv, FILE *out)
         fprintf(out, "rc=%d", rc);
         return 0;
 }
+/* h_write_stdout <h> <capture file> <fmt> : kalign_write_msa(handle, NULL, fmt) -- the alignment goes to the process's standard output, which is
+   pointed at <capture file> for the duration of the call (fd 1 only; the stdio stream `stdout` itself is the library's to leave usable) */
+static int op_h_write_stdout(int argc, char **argv, FILE *out)
+{
+        if(argc != 3) return 1;
+        int h = hidx(argv[0]); if(h < 0) return 1;
+        if(!handles[h]){ fputs("null", out); return 0; }
+        fflush(stdout);
+        int saved = dup(1);
+        int fd = open(argv[1], O_WRONLY | O_CREAT | O_TRUNC, 0644);
+        if(saved < 0 || fd < 0) return 1;
+        dup2(fd, 1); close(fd);
+        int rc = kalign_write_msa(handles[h], NULL, argv[2]);
+        fflush(stdout);
+        dup2(saved, 1); close(saved);
+        fprintf(out, "rc=%d", rc);
+        return 0;
+}
+/* arr_detect <seq>... : kalign_arr_to_msa on the strings -> "rc=<rc> biotype=<b> n=<numseq>" (the class the in-memory entry point concludes) */
+static int op_arr_detect(int argc, char **argv, FILE *out)
+{
+        if(argc < 1) return 1;
+        int *lens = malloc(sizeof(int) * argc);
+        for(int i = 0; i < argc; i++){ if(strcmp(argv[i], ".") == 0) argv[i] = (char*)""; lens[i] = (int)strlen(argv[i]); }
+        struct msa *msa = NULL;
+        int rc = kalign_arr_to_msa(argv, lens, argc, &msa);
+        if(rc != OK || !msa){ fprintf(out, "rc=1"); }
+        else { fprintf(out, "rc=0 biotype=%d n=%d", msa->biotype, msa->numseq); kalign_free_msa(msa); }
+        free(lens);
+        return 0;
+}
 /* h_compare <h1> <h2> : kalign_msa_compare(reference h1, test h2) -> rc + score bits */
 static int op_h_compare(int argc, char **argv, FILE *out)
 {
@@ -350,6 +382,8 @@ struct kv_op kv_ops_sys[] = {
         {"h_read_nofd", op_h_read_nofd},
         {"h_run", op_h_run},
         {"h_write", op_h_write},
+        {"h_write_stdout", op_h_write_stdout},
+        {"arr_detect", op_arr_detect},
         {"h_compare", op_h_compare},
         {"h_free", op_h_free},
         {"readfile", op_readfile},
